@@ -730,6 +730,21 @@ class Engine:
             elif name == "ok":
                 out.append(Tag("core::option::Option", "Some" if v[2] == "Ok" else "None",
                                [payload] if v[2] == "Ok" else []))
+            elif name == "unwrap_or_else":
+                if v[2] == "Ok":
+                    out.append(payload)
+                else:
+                    out.extend(self.call_value(args[1], [payload]))
+            elif name == "map_or":
+                if v[2] == "Ok":
+                    out.extend(self.call_value(args[2], [payload]))
+                else:
+                    out.append(args[1])
+            elif name in ("is_ok_and", "is_err_and"):
+                if (v[2] == "Ok") == (name == "is_ok_and"):
+                    out.extend(self.call_value(args[1], [payload]))
+                else:
+                    out.append(K(0))
             elif name in ("is_ok", "is_err"):
                 out.append(K(int((v[2] == "Ok") == (name == "is_ok"))))
             elif name in ("unwrap", "expect", "unwrap_or_default"):
@@ -772,6 +787,41 @@ class Engine:
                 else:
                     for x in self.call_value(args[1], []):
                         out.append(Tag("core::result::Result", "Err", [x]))
+            elif name == "filter":
+                if some:
+                    for keep in self.call_value(args[1], [Ref(payload)]):
+                        k = deref(keep)
+                        if k[0] == "k":
+                            out.append(v if k[1] else Tag("core::option::Option", "None", []))
+                        else:
+                            out.append(v)
+                            out.append(Tag("core::option::Option", "None", []))
+                else:
+                    out.append(v)
+            elif name in ("is_some_and", "is_none_or"):
+                if some:
+                    out.extend(self.call_value(args[1], [payload]))
+                else:
+                    out.append(K(int(name == "is_none_or")))
+            elif name == "map_or":
+                if some:
+                    out.extend(self.call_value(args[2], [payload]))
+                else:
+                    out.append(args[1])
+            elif name == "map_or_else":
+                out.extend(self.call_value(args[2], [payload]) if some else self.call_value(args[1], []))
+            elif name == "unwrap_or_else":
+                if some:
+                    out.append(payload)
+                else:
+                    out.extend(self.call_value(args[1], []))
+            elif name == "or":
+                out.append(v if some else args[1])
+            elif name == "or_else":
+                if some:
+                    out.append(v)
+                else:
+                    out.extend(self.call_value(args[1], []))
             elif name in ("is_some", "is_none"):
                 out.append(K(int(some == (name == "is_some"))))
             elif name in ("unwrap", "expect"):
